@@ -5,11 +5,14 @@
   the theorems are about file *contents* (`PickleFile`, `ManagerFile`, `JsonFile`), which
   the check re-reads from every file the real code writes and compares with the model's.
 
-  `DmpFoaSpec` / `AddVarInv` are the specifications of `find_or_add` / `add_var` proved with the
-  core (C01/C02/C14); the theorems that need them carry them as explicit hypotheses
-  (`…_of_specs`).  Statements that the CURRENT code does not satisfy are kept as
-  `…_statement`, refuted on concrete witnesses (`…_false_F2/F3/F11`), and proved with the
-  excluding hypothesis (roots present, non-constant roots, increasing level map).
+  The pickle theorems are unconditional: they rest on the core specifications
+  `findOrAdd_spec`, `iteF_spec` (DDProofs.Ite) and the `add_var` facts (DDProofs.VarsProofs).
+  They are stated for the code after the fix commits 8564934 (`_load` builds each node with
+  `_ite` on the mapped variable) and 58a79f8 (`load` of a file without roots / with constant
+  roots): any `levels`, any variable order of the receiving manager, roots given as a
+  list, a dict or not at all, constants among them.  The remaining hypotheses describe what
+  the loader itself may refuse (`levels=True` with a conflicting order) and exclude the
+  level gaps of F7 (`Contig`).  For JSON the writer is proved, the reader is not.
 -/
 import DDProofs.DumpProofs
 open Std
@@ -17,102 +20,88 @@ namespace DD
 
 /-! ### pickle -/
 
+/-- `pickle_load_statement` — C12 for `BDD.load` at full strength — holds for the current code -/
+theorem C12_pickle_load_statement : pickle_load_statement := pickle_load_statement_holds
+
+/-- `BDD.load` on ANY well-formed content (whatever wrote it, whatever the order of the dict
+items), with `load_target_inv`: the receiving manager keeps its invariant (reduced, ordered,
+unique — canonicity is C02 on `Inv`), its order tables stay consistent, every node it had is
+still there unchanged.  Exact reference counts are not part of `Inv` (C06's counting
+invariant): for C12 they are checked by the correspondence (ledger) only. -/
+theorem C12_pickle_load (f : PickleFile) (levels : Bool)
+    (m : Mgr) (hI : Inv m) (hb : DmpVarsBij m.tbl) (hc : m.ctx = false)
+    (hwf : PickleWF f) (hr : RootsResolvable f)
+    (lm : List (Nat × Nat)) (m1 : Mgr)
+    (hv : loadVars levels f.vars.length f.vars [] m = (.ok lm, m1))
+    (hg : Contig m1.tbl) :
+    ∃ roots' m', loadPickle f levels m = (.ok roots', m') ∧ Inv m' ∧ DmpVarsBij m'.tbl ∧
+      Contig m'.tbl ∧ m'.ctx = false ∧ (∀ u n, m.tbl.node? u = some n → m'.tbl.node? u = some n) ∧
+      LoadedFrom f m'.tbl roots' :=
+  pickle_load f levels m hI hb hc hwf hr lm m1 hv hg
+
 /-- `pickle_roundtrip` (general): dump the container `roots` of `src`, load the content into
 `tgt`: same container shape, every member denotes — by variable name — the dumped function;
 the invariant is kept and old nodes of `tgt` are untouched. -/
-theorem C12_pickle_roundtrip_of_specs (hF : DmpFoaSpec) (hA : AddVarInv)
+theorem C12_pickle_roundtrip
     (src : Mgr) (hIs : Inv src) (hvs : DmpVarsOK src.tbl)
-    (roots : Roots) (hsome : roots ≠ .none) (hnc : ∀ u ∈ roots.values, u.natAbs ≠ 1)
-    (f : PickleFile) (hd : dumpPickle src roots = .ok f)
+    (roots : Roots) (f : PickleFile) (hd : dumpPickle src roots = .ok f)
     (levels : Bool) (tgt : Mgr) (hI : Inv tgt) (hb : DmpVarsBij tgt.tbl) (hc : tgt.ctx = false)
     (lm : List (Nat × Nat)) (m1 : Mgr)
     (hv : loadVars levels f.vars.length f.vars [] tgt = (.ok lm, m1))
-    (hg : Contig m1.tbl) (hm : levels = false → MonoMap lm) :
+    (hg : Contig m1.tbl) :
     ∃ roots' m', loadPickle f levels tgt = (.ok roots', m') ∧ Inv m' ∧ DmpVarsBij m'.tbl ∧
       (∀ u n, tgt.tbl.node? u = some n → m'.tbl.node? u = some n) ∧
       LoadedAs src.tbl roots m'.tbl roots' :=
-  pickle_roundtrip_of_specs hF hA src hIs hvs roots hsome hnc f hd levels tgt hI hb hc lm m1 hv hg hm
+  pickle_roundtrip src hIs hvs roots f hd levels tgt hI hb hc lm m1 hv hg
+
+/-- `levels=False` into ANY manager with a consistent order (other order, extra or missing
+variables, pre-existing nodes): never refused, returns the dumped functions -/
+theorem C12_pickle_roundtrip_any_order
+    (src : Mgr) (hIs : Inv src) (hvs : DmpVarsOK src.tbl)
+    (roots : Roots) (f : PickleFile) (hd : dumpPickle src roots = .ok f)
+    (tgt : Mgr) (hI : Inv tgt) (hO : OrderOK tgt.tbl) (hc : tgt.ctx = false) :
+    ∃ roots' m', loadPickle f false tgt = (.ok roots', m') ∧ Inv m' ∧ OrderOK m'.tbl ∧
+      (∀ u n, tgt.tbl.node? u = some n → m'.tbl.node? u = some n) ∧
+      LoadedAs src.tbl roots m'.tbl roots' :=
+  pickle_roundtrip_any_order src hIs hvs roots f hd tgt hI hO hc
 
 /-- into a manager that already declares the variables at the same levels, either `levels` -/
-theorem C12_pickle_roundtrip_declared (hF : DmpFoaSpec)
+theorem C12_pickle_roundtrip_declared
     (src : Mgr) (hIs : Inv src) (hvs : DmpVarsOK src.tbl)
-    (roots : Roots) (hsome : roots ≠ .none) (hnc : ∀ u ∈ roots.values, u.natAbs ≠ 1)
-    (f : PickleFile) (hd : dumpPickle src roots = .ok f)
+    (roots : Roots) (f : PickleFile) (hd : dumpPickle src roots = .ok f)
     (levels : Bool) (tgt : Mgr) (hI : Inv tgt) (hb : DmpVarsBij tgt.tbl) (hg : Contig tgt.tbl)
     (hc : tgt.ctx = false)
     (hdecl : ∀ (var : String) (i : Nat), src.tbl.vars[var]? = some i → tgt.tbl.vars[var]? = some i) :
     ∃ roots' m', loadPickle f levels tgt = (.ok roots', m') ∧ Inv m' ∧ DmpVarsBij m'.tbl ∧
       (∀ u n, tgt.tbl.node? u = some n → m'.tbl.node? u = some n) ∧
       LoadedAs src.tbl roots m'.tbl roots' :=
-  pickle_roundtrip_declared hF src hIs hvs roots hsome hnc f hd levels tgt hI hb hg hc hdecl
+  pickle_roundtrip_declared src hIs hvs roots f hd levels tgt hI hb hg hc hdecl
 
 /-- into the same manager -/
-theorem C12_pickle_roundtrip_same_manager (hF : DmpFoaSpec) (m : Mgr) (hI : Inv m) (hv : DmpVarsOK m.tbl)
-    (hc : m.ctx = false) (roots : Roots) (hsome : roots ≠ .none)
-    (hnc : ∀ u ∈ roots.values, u.natAbs ≠ 1) (f : PickleFile) (hd : dumpPickle m roots = .ok f)
+theorem C12_pickle_roundtrip_same_manager (m : Mgr) (hI : Inv m) (hv : DmpVarsOK m.tbl)
+    (hc : m.ctx = false) (roots : Roots) (f : PickleFile) (hd : dumpPickle m roots = .ok f)
     (levels : Bool) :
     ∃ roots' m', loadPickle f levels m = (.ok roots', m') ∧ Inv m' ∧ DmpVarsBij m'.tbl ∧
       (∀ u n, m.tbl.node? u = some n → m'.tbl.node? u = some n) ∧
       LoadedAs m.tbl roots m'.tbl roots' :=
-  pickle_roundtrip_same_manager hF m hI hv hc roots hsome hnc f hd levels
-
-/-- into a fresh manager -/
-theorem C12_pickle_roundtrip_fresh (hF : DmpFoaSpec)
-    (src : Mgr) (hIs : Inv src) (hvs : DmpVarsOK src.tbl)
-    (roots : Roots) (hsome : roots ≠ .none) (hnc : ∀ u ∈ roots.values, u.natAbs ≠ 1)
-    (f : PickleFile) (hd : dumpPickle src roots = .ok f)
-    (levels : Bool) (tgt : Mgr) (hN : NodeFree tgt) (hb : DmpVarsBij tgt.tbl) (hc : tgt.ctx = false)
-    (lm : List (Nat × Nat)) (m1 : Mgr)
-    (hv : loadVars levels f.vars.length f.vars [] tgt = (.ok lm, m1))
-    (hg : Contig m1.tbl) (hm : levels = false → MonoMap lm) :
-    ∃ roots' m', loadPickle f levels tgt = (.ok roots', m') ∧ Inv m' ∧ DmpVarsBij m'.tbl ∧
-      LoadedAs src.tbl roots m'.tbl roots' :=
-  pickle_roundtrip_fresh hF src hIs hvs roots hsome hnc f hd levels tgt hN hb hc lm m1 hv hg hm
-
-/-- `load_target_inv` + load semantics on ANY well-formed content (whatever wrote it, whatever
-the order of the dict items): the partial version of `pickle_load_statement` -/
-theorem C12_pickle_load_partial (hF : DmpFoaSpec) (hA : AddVarInv) (f : PickleFile) (levels : Bool)
-    (m : Mgr) (hI : Inv m) (hb : DmpVarsBij m.tbl) (hc : m.ctx = false)
-    (hwf : PickleWF f) (hr : RootsOK f) (lm : List (Nat × Nat)) (m1 : Mgr)
-    (hv : loadVars levels f.vars.length f.vars [] m = (.ok lm, m1))
-    (hg : Contig m1.tbl) (hm : levels = false → MonoMap lm) :
-    ∃ roots' m', loadPickle f levels m = (.ok roots', m') ∧ Inv m' ∧ DmpVarsBij m'.tbl ∧
-      m'.ctx = false ∧ (∀ u n, m.tbl.node? u = some n → m'.tbl.node? u = some n) ∧
-      RootsRel (fun u r => m'.tbl.Mem r ∧ ∀ α, denBy m'.tbl r α = evalPickle f u α) f.roots roots' :=
-  pickle_load_of_specs hF Inv f levels (fun m var _ j m' _ hJ h => hA m var _ j m' hJ h)
-    (fun _ h => h) m hI hb hc hwf hr lm m1 hv hg hm
-
-/-- `load_target_inv`: whatever a successful `BDD.load` of a well-formed content does, the
-receiving manager keeps its invariant (reduced, ordered, unique — canonicity is C02 on `Inv`),
-its variable tables stay inverse of each other, and every node it had is still there
-unchanged.  Exact reference counts are NOT part of `Inv` (they belong to C06's counting
-invariant): for C12 they are checked by the correspondence (ledger) only. -/
-theorem C12_load_target_inv_of_specs (hF : DmpFoaSpec) (hA : AddVarInv) (f : PickleFile) (levels : Bool)
-    (m : Mgr) (hI : Inv m) (hb : DmpVarsBij m.tbl) (hc : m.ctx = false)
-    (hwf : PickleWF f) (hr : RootsOK f) (lm : List (Nat × Nat)) (m1 : Mgr)
-    (hv : loadVars levels f.vars.length f.vars [] m = (.ok lm, m1))
-    (hg : Contig m1.tbl) (hm : levels = false → MonoMap lm) :
-    ∃ roots' m', loadPickle f levels m = (.ok roots', m') ∧ Inv m' ∧ DmpVarsBij m'.tbl ∧
-      (∀ u n, m.tbl.node? u = some n → m'.tbl.node? u = some n) := by
-  obtain ⟨r, m', e, I, B, _, N, _⟩ :=
-    C12_pickle_load_partial hF hA f levels m hI hb hc hwf hr lm m1 hv hg hm
-  exact ⟨r, m', e, I, B, N⟩
+  pickle_roundtrip_same_manager m hI hv hc roots f hd levels
 
 /-- `roots_container`: list / dict shape (positions, keys) is what was given to `dump` -/
 theorem C12_roots_container {m : Mgr} {roots : Roots} {f : PickleFile}
     (h : dumpPickle m roots = .ok f) : f.roots = roots := roots_container h
 
-/-- the writer: well-formed content, roots container stored as given, same functions by name -/
+/-- the writer: well-formed content with resolvable roots, roots container stored as given,
+same functions by name -/
 theorem C12_pickle_dump_spec {m : Mgr} (hI : Inv m) (hv : DmpVarsOK m.tbl) {roots : Roots} {f : PickleFile}
     (h : dumpPickle m roots = .ok f) :
-    PickleWF f ∧ f.roots = roots ∧ ∀ α, ∀ u ∈ roots.values, evalPickle f u α = denBy m.tbl u α :=
-  ⟨dumpPickle_wf hI hv h, roots_container h, fun α => dumpPickle_eval hI hv h α⟩
+    PickleWF f ∧ RootsResolvable f ∧ f.roots = roots ∧
+    ∀ α, ∀ u ∈ roots.values, evalPickle f u α = denBy m.tbl u α :=
+  ⟨dumpPickle_wf hI hv h, dumpPickle_resolvable hI h, roots_container h,
+   fun α => dumpPickle_eval hI hv h α⟩
 
-/-- the full statement fails on the current code: roots `None` (F2), a constant root (F11),
-`levels=False` into another order (F3) -/
-theorem C12_pickle_load_statement_false_F2 : ¬ pickle_load_statement := pickle_load_statement_false_F2
-theorem C12_pickle_load_statement_false_F11 : ¬ pickle_load_statement := pickle_load_statement_false_F11
-theorem C12_pickle_load_statement_false_F3 : ¬ pickle_load_statement := pickle_load_statement_false_F3
+/-- `add_var` keeps the invariant, also at a free level that is not the next one -/
+theorem C12_addVar_inv {m m' : Mgr} {var : String} {lvl : Option Int} {j : Nat} (hI : Inv m)
+    (h : addVar var lvl m = (.ok j, m')) : Inv m' := addVar_inv hI h
 
 /-! ### whole manager -/
 
@@ -133,7 +122,8 @@ theorem C12_json_dump_spec {m : Mgr} (hI : Inv m) (hv : DmpVarsOK m.tbl) {roots 
 theorem C12_json_roundtrip_of_load (hL : json_load_statement) : json_roundtrip_statement :=
   json_roundtrip_of_load hL
 
-/-- F10: after `load_json(load_order=True)` dynamic reordering is enabled -/
+/-- observation (outside the text of C12): after `load_json(load_order=True)` dynamic
+reordering is enabled, whatever it was before -/
 theorem C12_loadJson_loadOrder_enables_reordering (f : JsonFile) (m m' : Mgr) (r : Roots)
     (h : loadJson f true m = (.ok r, m')) : m'.lastLen.isSome = true :=
   loadJson_loadOrder_enables_reordering f m m' r h
@@ -141,32 +131,30 @@ theorem C12_loadJson_loadOrder_enables_reordering (f : JsonFile) (m m' : Mgr) (r
 /-! ### non-vacuity: concrete states meeting the hypotheses -/
 
 /-- the empty manager is a source and a target -/
-example : Inv ({} : Mgr) ∧ DmpVarsOK ({} : Mgr).tbl ∧ PredShape {} ∧ NodeFree {} :=
-  ⟨Inv.init, varsOK_empty, by intro k u h; simp at h,
-   ⟨by intro u; simp, by intro k; simp, by intro k; simp, by decide, by decide +kernel⟩⟩
+example : Inv ({} : Mgr) ∧ DmpVarsOK ({} : Mgr).tbl ∧ OrderOK ({} : Mgr).tbl ∧ PredShape {} :=
+  ⟨Inv.init, varsOK_empty, OrderOK.empty, by intro k u h; simp at h⟩
 
-/-- a well-formed content with a non-constant root (`b ∧ a`, written under the order b < a), a
-fresh manager declaring b < a, the loader's first loop, no level gap: every hypothesis of
-`C12_pickle_load_partial` except the two specs -/
-example : PickleWF fileBA ∧ RootsOK fileBA ∧ NodeFree mgrBA ∧ DmpVarsBij mgrBA.tbl ∧ mgrBA.ctx = false ∧
-    Contig mgrBA.tbl ∧ ∃ lm, loadVars true fileBA.vars.length fileBA.vars [] mgrBA = (.ok lm, mgrBA) :=
-  ⟨fileBA_wf,
-   ⟨by simp [fileBA], by
-      intro u hu
-      simp [fileBA, Roots.values] at hu
-      subst hu
-      exact ⟨by decide, ⟨3, 0, some (-1), some 2⟩, by simp [fileBA], rfl⟩⟩,
-   mgr2_nodeFree _ _, mgr2_bij _ _ (by decide), rfl, mgr2_contig _ _ (by decide),
-   loadVars_declared true _ _ [] mgrBA (by
-     intro var i h
-     simp [fileBA] at h
-     rcases h with ⟨rfl, rfl⟩ | ⟨rfl, rfl⟩
-     · exact ⟨by rw [mgr2_vars]; simp, by decide⟩
-     · exact ⟨by rw [mgr2_vars]; simp, by decide⟩)⟩
+/-- every hypothesis of `C12_pickle_load` on a non-trivial input: the content `b ∧ a` written
+under the order b < a (`fileBA`, well formed, root resolvable), `levels=False`, a fresh
+manager declaring the OTHER order a < b (`mgrAB`), the loader's first loop, no gap -/
+example : PickleWF fileBA ∧ RootsResolvable fileBA ∧ Inv mgrAB ∧ DmpVarsBij mgrAB.tbl ∧
+    mgrAB.ctx = false ∧ Contig mgrAB.tbl ∧
+    ∃ lm, loadVars false fileBA.vars.length fileBA.vars [] mgrAB = (.ok lm, mgrAB) := by
+  refine ⟨fileBA_wf, ?_, mgrAB_nodeFree.inv, mgrAB_bij, rfl, mgrAB_contig, [(0, 1), (1, 0)], ?_⟩
+  · intro u hu
+    simp [fileBA, Roots.values] at hu
+    subst hu
+    exact Or.inr ⟨⟨3, 0, some (-1), some 2⟩, by simp [fileBA], rfl⟩
+  · simp [loadVars, fileBA, addVar, bind, M.bind', M.get, mgrAB_vars, pure, M.pure']
 
-/-- on that input the model returns a root and builds the two ordered nodes -/
-example : (loadPickle fileBA true mgrBA).1 = .ok (.list [3]) ∧
-    (loadPickle fileBA true mgrBA).2.tbl.node? 3 = some ⟨0, -1, 2⟩ ∧
-    (loadPickle fileBA true mgrBA).2.tbl.node? 2 = some ⟨1, -1, 1⟩ := by decide +kernel
+/-- and what the model computes there (formerly F3): the ordered diagram of `a ∧ b` -/
+example : (loadPickle fileBA false mgrAB).1 = .ok (.list [4]) ∧
+    (loadPickle fileBA false mgrAB).2.tbl.node? 4 = some ⟨0, -1, 3⟩ ∧
+    (loadPickle fileBA false mgrAB).2.tbl.node? 3 = some ⟨1, -1, 1⟩ := load_levels_false_ordered
+
+/-- formerly F2 / F11: no roots → empty list; a constant root → itself -/
+example : (loadPickle fileNoRoots true {}).1 = .ok (.list []) ∧
+    (loadPickle fileConstRoot true {}).1 = .ok (.list [1]) :=
+  ⟨load_roots_none_ok, load_constant_root_ok⟩
 
 end DD
